@@ -31,6 +31,11 @@ type GNode struct {
 	I  interface{}
 }
 
+// GBox is held by value in interfaces: a struct value with a reference inside
+type GBox struct {
+	P *GNode
+}
+
 // GRoot reaches the graph through a slice, so that the type can be pointerified (see finding D3).
 type GRoot struct {
 	Nodes []*GNode
@@ -127,6 +132,8 @@ func gBuild(c gCase) []*GNode {
 			return maps[r.V-1]
 		case "imap":
 			return imaps[r.V-1]
+		case "box":
+			return GBox{P: nodes[r.V-1]}
 		}
 		return nil
 	}
@@ -248,6 +255,16 @@ func gIface(o, c interface{}, path string, seen map[*GNode]bool, out *[]gSite, d
 			return
 		}
 		gWalk(ov, cv, path, seen, out, diffs)
+	case GBox:
+		cv, ok := c.(GBox)
+		if !ok {
+			*diffs = append(*diffs, path+": dynamic type differs")
+			return
+		}
+		if ov.P != nil && cv.P != nil {
+			*out = append(*out, gSite{path + ".P", reflect.ValueOf(ov.P).Pointer(), reflect.ValueOf(cv.P).Pointer()})
+		}
+		gWalk(ov.P, cv.P, path+".P", seen, out, diffs)
 	case map[string]*GNode:
 		cv, ok := c.(map[string]*GNode)
 		if !ok {
